@@ -10,7 +10,7 @@ import itertools
 
 from ..source import AnalysisError, norm
 from ..cfg import class_named, function_named
-from ..interp import Interp, Obj, Raised, Env
+from ..interp import class_members, Interp, Obj, Raised, Env
 from .C08 import ISA, ident, const, binop, base_stubs, select_ctor, _show
 
 TS = 'mindsdb_sql/planner/plan_join_ts.py'
@@ -62,6 +62,12 @@ def mk_stubs(ctx, fns, utils_fns, captured):
 
 
 _METHODS = {}
+_CTX = {}
+
+
+def interp_for(stubs, file=None, **kw):
+    """an interpreter that resolves methods and class constants of the planner classes and the module-level names of `file`"""
+    return Interp.for_file(_CTX['src'], file or TS, ISA, stubs, also=('mindsdb_sql/planner/plan_join.py', 'mindsdb_sql/planner/query_planner.py'), **kw)
 
 
 def run(ctx):
@@ -79,9 +85,8 @@ def run(ctx):
     tree = ctx.src.tree(TS)
     cls = class_named(tree, 'PlanJoinTSPredictorQuery')
     ctx.need(cls is not None, 'PlanJoinTSPredictorQuery not found')
-    fns = {m.name: m for m in cls.body if isinstance(m, ast.FunctionDef)}
-    _METHODS.clear()
-    _METHODS['PlanJoinTSPredictorQuery'] = fns
+    fns = class_members(cls)
+    _CTX.update(tree=tree, src=ctx.src)
     for need in ('plan_timeseries_predictor', 'plan_fetch_timeseries_partitions', 'plan'):
         ctx.need(need in fns, f'{need} not found')
     utree = ctx.src.tree(TU)
@@ -102,8 +107,7 @@ def run(ctx):
             setattr(q, k, v)
         table = Obj('Identifier', parts=['int1', 'tbl'], alias=Obj('Identifier', parts=['ta'], alias=None))
         predictor = Obj('Identifier', parts=['proj', 'tp'], alias=Obj('Identifier', parts=['tb'], alias=None))
-        it = Interp(ISA, stubs, max_steps=60000, methods=_METHODS)
-        it.module, it.src = utree, ctx.src          # helpers of ts_utils and what it imports from the planner package
+        it = interp_for(stubs, max_steps=60000)
         out = {'raised': None, 'ret': None}
         try:
             out['ret'] = it.call_function(ptp, [self_, q, table, 'proj', predictor], {}, Env())
@@ -296,7 +300,7 @@ def run(ctx):
         stubs['self.planner.plan_project'] = lambda it, q, df: Obj('Projected', dataframe=df)
         join = Obj('Join', left=model if left_is_model else tbl, right=tbl if left_is_model else model, join_type='JOIN', condition=None)
         q = select_ctor(None, targets=[Obj('Star')], from_table=join)
-        it = Interp(ISA, stubs, methods=_METHODS)
+        it = interp_for(stubs)
         out = it.call_function(pl, [Obj('PlanJoinTSPredictorQuery'), q], {}, Env())
         rows += 1
         kinds = [s.kind for s in added]
